@@ -8,7 +8,7 @@
     ([C09_accepted_is_admitted]), so "never admitted twice" implies "never accepted twice". *)
 From Coq Require Import ZArith List Bool NArith.
 From HK Require Import Model.NonceCache Model.Hmac Model.ReloadAuth Model.HmacHistory
-  Proofs.HmacProofs Proofs.ReplayProofs.
+  Proofs.HmacProofs Proofs.ReplayProofs Proofs.NonceCacheInv.
 Import ListNotations.
 Open Scope Z_scope.
 
@@ -102,6 +102,32 @@ Theorem C09_P_C09_spec : forall tr,
     ac_nonce a = ac_nonce b -> ac_signed a + ac_tol b < ac_now b.
 Proof. exact P_C09_spec. Qed.
 
+(** The nonce cache as a data structure.  The Go map nonce -> expiry is an association list in the
+    model; every cache reachable from the empty one by admissions (accepted or refused, any clock) and
+    tolerance-growing reloads holds each nonce at most once, so the model's [lookup] reads THE entry
+    of a nonce exactly as the Go map does. *)
+Theorem C09_cache_is_a_map : forall ops, wf (fold_left cache_step ops []).
+Proof. exact wf_reachable. Qed.
+
+(** An accepted admission leaves exactly one entry for the nonce and it covers the window t + tol. *)
+Theorem C09_accepted_entry_unique : forall n t tol now c c',
+  wf c -> cache_admit n t tol now c = (true, c') ->
+  wf c' /\ lookup n c' = Some (t + tol) /\ (forall e, In (n, e) c' -> e = t + tol).
+Proof. exact admit_true_entry. Qed.
+
+(** The opportunistic clean-up bounds the cache: after any request that passes the tolerance test
+    (new nonce or replay alike), no entry already expired at that request's clock reading is left -
+    the cache holds at most the nonces whose windows are still open; a request outside the tolerance
+    window does not touch the cache at all (it can neither evict nor insert). *)
+Theorem C09_cache_holds_only_open_windows : forall n t tol now c,
+  n <> [] -> 0 < tol -> - tol <= now - t <= tol ->
+  live_at now (snd (cache_admit n t tol now c)).
+Proof. exact admit_in_window_live. Qed.
+
+Theorem C09_out_of_window_request_leaves_cache_untouched : forall n t tol now c,
+  0 < tol -> (now - t < - tol \/ tol < now - t) -> cache_admit n t tol now c = (false, c).
+Proof. exact admit_out_of_window_untouched. Qed.
+
 Print Assumptions C09_window_closed_between.
 Print Assumptions C09_P_C09_spec.
 Print Assumptions C09_no_double_accept.
@@ -111,3 +137,7 @@ Print Assumptions C09_reload_keeps_nonces.
 Print Assumptions C09_reload_then_replay_refused.
 Print Assumptions C09_concurrent_duplicates.
 Print Assumptions C09_tolerance_grown_refuted.
+Print Assumptions C09_cache_is_a_map.
+Print Assumptions C09_accepted_entry_unique.
+Print Assumptions C09_cache_holds_only_open_windows.
+Print Assumptions C09_out_of_window_request_leaves_cache_untouched.
